@@ -301,3 +301,47 @@ def explain(fname, call):
     except Exception as e:
         return f"{fname}{a}: {type(e).__name__}: {e}"
     return f"{fname} fails for {a} {kw}"
+
+
+# ---- native companion (ground): random whitespace at the token boundaries of grammar-derived formulas
+
+def ws_random_cases(seed: int, n: int):
+    """[(canonical string, respaced string)]: whitespace of random kind and length at every boundary where at least one side is an operator
+    or a bracket (between two word-like tokens, or two operator characters, the single space is kept: those would merge)."""
+    import random
+
+    rng = random.Random(seed)
+    extra = ["f(a, b)", "{a + b}", "`a b`", "np.log(a)", "2.5", "x1"]
+    opchars = set("+-*/:^~|%")
+    out = []
+    for syms in pc.random_streams(seed + 11, n)[::2]:  # the well-formed half
+        syms = [rng.choice(extra) if (t in ("a", "b", "c") and rng.random() < 0.2) else t for t in syms]
+        parts = [syms[0]]
+        for prev, cur in zip(syms, syms[1:]):
+            wordlike = lambda t: t[0].isalnum() or t[0] in "`{._" or t.endswith(")") and "(" in t
+            merge = (wordlike(prev) and (wordlike(cur) or cur in "([")) or (prev[-1] in opchars and cur[0] in opchars)
+            parts.append(" " if merge else rng.choice(["", "", " ", "  ", "\t", "\n", " \t ", "\u00a0" if False else " "]))
+            parts.append(cur)
+        lead, trail = rng.choice(["", " ", "\n"]), rng.choice(["", " ", "\t\n"])
+        out.append((" ".join(syms), lead + "".join(parts) + trail))
+    return out
+
+
+def ws_random_check(canon: str, spaced: str):
+    """None if both spellings lex to the same tokens and parse to the same formula (or are rejected alike), else a message."""
+    from formulaic.formula import Formula
+
+    a, b = _norm_ops(_safe(canon)), _norm_ops(_safe(spaced))
+    if a != b:
+        return f"whitespace-changes-tokens: {canon!r} lexes to {a}, {spaced!r} to {b}"
+
+    def parse(s):
+        try:
+            return repr(Formula.from_spec(s))
+        except Exception as e:
+            return f"<{type(e).__name__}>"
+
+    fa, fb = parse(canon), parse(spaced)
+    if fa != fb:
+        return f"whitespace-changes-formula: {canon!r} gives {fa}, {spaced!r} gives {fb}"
+    return None
